@@ -7,7 +7,7 @@ TRUSTED = ["a fake device on 127.<pid>.<pid>.k:9957 / 10000 counts open connecti
            "a connect issued while connected abandons the old socket; CPython's reference counting closes it at once (modelled runtime "
            "behaviour, outside the property's claim); peer resets are outside the modelled faults"]
 ASSUMPTIONS = ["'operation raises' is a state query answered with garbage (RuntimeError); 'refused' is a closed listening port"]
-RULE = ("action sequences over {connect (device listening / not), disconnect, operation (returns / raises), async-with (listening / not, "
+RULE = ("action sequences over {connect (device listening / not), disconnect, operation (returns / raises on a garbage reply / raises because the device half-closed the stream at login), async-with (listening / not, "
         "body returns / raises KeyError, TimeoutError, ConnectionResetError or is cancelled)} for both API classes: every sequence of length <= 3 (584 per class) and random ones of length 4..8 "
         "(thorough: every sequence of length <= 4); after every action: connected flag, device-side open connections, EOFs seen; "
         "non-trivial = distinct sequences with a successful connect")
@@ -24,7 +24,7 @@ async def settle():
 class Dev(world.FakeDevice):
     def __init__(self, ip, port):
         super().__init__(ip, port); self.mode = "ok"
-        self.policy = lambda n, d: (bytes(20) if self.mode == "ok" else b"\x01")
+        self.policy = lambda n, d: (bytes(20) if self.mode == "ok" else world.HALF_CLOSE if self.mode == "halfclose" else b"\x01")
 
 
 async def run_seq(cls, dev, acts, ip):
@@ -37,7 +37,11 @@ async def run_seq(cls, dev, acts, ip):
             elif k == 1: await api.disconnect()
             elif k == 2:
                 if api.connected and dev.srv:
-                    if f:
+                    if f == 2:          # the device answers the login packet by ending its stream (half-close): the operation raises, nothing disconnects
+                        dev.mode = "halfclose"
+                        try: await (api.get_state() if cls is SwitcherType1Api else api.get_shutter_state())
+                        finally: dev.mode = "ok"
+                    elif f:
                         dev.mode = "bad"
                         try: await (api.get_state() if cls is SwitcherType1Api else api.get_shutter_state())
                         finally: dev.mode = "ok"
@@ -82,6 +86,20 @@ def spec_judge(acts, text):
     return "ok"
 
 
+def model_acts(acts):
+    """the model's action list: an operation on a stream the device has half-closed raises, like the half-close itself"""
+    conn = dead = False; out = []
+    for k, f in acts:
+        if k == 0 and f: conn, dead = True, False
+        elif k == 1: conn = False
+        elif k >= 3 and f: conn = False
+        if k == 2:
+            if f == 2 and conn: dead = True
+            out.append([2, 1 if (f or (conn and dead)) else 0])
+        else: out.append([k, f])
+    return out
+
+
 def run_sequences(out, stream, cls, seqs):
     async def go():
         ip = world.loopback_ip(7); dev = Dev(ip, 9957 if cls is SwitcherType1Api else 10000); res = []
@@ -89,7 +107,7 @@ def run_sequences(out, stream, cls, seqs):
         await dev.listen(False)
         return res
     io = asyncio.run(go())
-    mo = lib.run_model([lib.req("client", [[k, f] for k, f in s]) for s in seqs])
+    mo = lib.run_model([lib.req("client", model_acts(s)) for s in seqs])
     names = NAMES
     cases = [{"cls": cls.__name__, "acts": [list(a) for a in s]} for s in seqs]
     lib.differential(out, stream, cases, io, mo, ["ok"] * len(cases), lambda c: c["cls"] + ": " + ", ".join("%s(%d)" % (names[k], f) for k, f in c["acts"]),
@@ -99,7 +117,7 @@ def run_sequences(out, stream, cls, seqs):
 
 def run(tier, rnd, out):
     alphabet = [(0, 1), (0, 0), (1, 0), (2, 0), (2, 1), (3, 1), (3, 0), (4, 1)]
-    wide = alphabet + [(5, 1), (6, 1), (7, 1), (4, 0), (5, 0)]
+    wide = alphabet + [(5, 1), (6, 1), (7, 1), (4, 0), (5, 0), (2, 2), (2, 2)]
     by = {"SwitcherType1Api": SwitcherType1Api, "SwitcherType2Api": SwitcherType2Api}
     for c in lib.load_corpus("C18"): run_sequences(out, "corpus", by[c["cls"]], [[tuple(a) for a in c["acts"]]])
     seqs = [list(s) for L in ((1, 2, 3) if tier == "quick" else (1, 2, 3, 4)) for s in itertools.product(alphabet, repeat=L)]
